@@ -218,6 +218,7 @@ func init() {
 			}
 			c01Direct(rc, rc.Pick(8, 64), false)
 			c01Tx(rc, rc.Pick(1, 6), rc.Pick(400, 1500))
+			ProbeHistory(rc, rc.Pick(240, 900), false)
 		},
 		Floors: func(c *Cov, tier string) []string {
 			var miss []string
